@@ -135,7 +135,7 @@ def models():
     ms.append(M('extra', [ex, inner], [K('Ex')],
                 keys=['a', 'u', 'w', 'q', 'v'], scalars=[S_42, S_ABC],
                 mtags=('map', '!In', '!Unknown'), stags=['!In', '!Unknown'],
-                oddkeys=[S_42]))
+                oddkeys=[S_42], qo=6, to=7, strs=['abc', '42']))
     # ---- dashed keys with and without dashes_to_unders ---------------------
     da = C('Da', [P('my_attr', INT), P('o_p', STR, ['str', 'd'])])
     ms.append(M('dashed', [da], [K('Da')],
@@ -288,15 +288,15 @@ def models():
                 keys=['label', 'level'], scalars=[S_ABC], qn=3, tn=3,
                 an=5, rtypes=[]))
     # ---- nested classes for error positions ----------------------------------
-    inn = C('Inn', [P('a', INT), P('b', STR)])
+    inn = C('Inn', [P('a', INT), P('b', STR), P('d', INT)])
     out = C('Out', [P('i', K('Inn')), P('l', L(K('Inn'))),
                     P('o', Opt(K('Inn')), ['null']),
                     P('c', Opt(K('Col2')), ['null'])])
     col2 = C('Col2', kind='enum', members=['red', 'blue'])
     ms.append(M('nested', [col2, inn, out], [K('Out')],
-                keys=['a', 'b', 'i', 'l', 'o', 'c'],
+                keys=['a', 'b', 'd', 'i', 'l', 'o', 'c'],
                 scalars=[S_42, S_ABC, S_RED], strs=['abc'], qn=1, tn=1,
-                qo=12, to=14))
+                qo=11, to=13))
     # ---- dump / round-trip families ----------------------------------------
     ms.append(M('strings', [], [STR, ANY, PATH], keys=['abc'], scalars=[S_ABC],
                 family='dump', qn=1, tn=1))
@@ -309,15 +309,16 @@ def models():
                 keys=['abc'], scalars=[S_ABC], strs=['abc', '42'],
                 family='dump', qn=1, tn=1))
     df = C('Df', [P('a', INT), P('n', Opt(INT), ['null']),
-                  P('s', STR, ['str', 'abc']), P('i', INT, ['int', '42']),
-                  P('b', BOOL, ['bool', 'true']),
+                  P('s', STR, ['str', 'abc']), P('i', INT, ['int', '42'])],
+           swe=['remove_defaults', 'Df'])
+    dg = C('Dg', [P('a', INT), P('b', BOOL, ['bool', 'true']),
                   P('t', Opt(STR), ['null']),
                   P('w', U(INT, STR), ['int', '42'])],
-           swe=['remove_defaults', 'Df'])
-    ms.append(M('defaults', [df], [K('Df')],
+           swe=['remove_defaults', 'Dg'])
+    ms.append(M('defaults', [df, dg], [K('Df'), K('Dg')],
                 keys=['a', 'n', 's', 'i', 'b', 't', 'w'],
-                scalars=[S_42, S_ABC], strs=['abc', '42', 'None', 'true'],
-                family='dump', qn=1, tn=1, qo=9, to=10))
+                scalars=[S_42, S_ABC], strs=['abc', '42', 'None'],
+                family='dump', qn=1, tn=1, qo=6, to=7))
     iv = C('Iv', [P('my_attr', INT), P('o_p', STR, ['str', 'd'])],
            sav=['dashes_to_unders'], swe=['unders_to_dashes'])
     rn = C('Rn', [P('p', INT)], recog=['require_attr', 'pp'],
@@ -395,6 +396,7 @@ IMPLICIT = {
     '+.5': 'float', '1E+5': 'float', '.5': 'float', '-.0': 'float',
     '12e03': 'float', '-7': 'int', '-.inf': 'float', '.nan': 'float',
     '1.0e+20': 'float', '-0.0': 'float', '1.0e-07': 'float', 'false': 'bool',
+    'True': 'bool', 'None': 'str',
 }
 
 
